@@ -420,3 +420,60 @@ func TestC17(t *testing.T) {
 	S("C17").Rule = "declarations (option/positional/value names and choices over ASCII, Latin-1, Greek, Cyrillic, CJK; namespaced nested groups; 0-2 active command levels by tag or programmatic; positional arguments) x descriptions (unique ASCII marker + 0-14 words of 1-60 characters in any script, separated by blanks, newlines, blank paragraphs) x terminal width 1..400 through a real pty (and 80); oracle: no panic; valid UTF-8; all description starts (marker column, in characters) equal; continuation lines indented to exactly that column; words conserved in order after undoing hard breaks; no line longer than the width when width-C >= 10. non-trivial: non-ASCII name or word, a word longer than the wrap width, width-C < 25, or >= 2 indentation levels; distinct by rendered help text"
 	runProp(t, "C17", genC17, c17Oracle)
 }
+
+// FuzzHelp: coverage-guided search over (width, names, description bytes).
+func FuzzHelp(f *testing.F) {
+	f.Add(uint16(80), "verbose", "FILE", "one two three", "positional")
+	f.Add(uint16(20), "détaillé-ééééé", "ÉÉ", "ééééééééééééééééééééééééééééééééééé x", "éééééééé")
+	f.Add(uint16(1), "日本語", "", "日本語日本語日本語日本語日本語日本語日本語日本語日本語日本語日本語", "名")
+	f.Add(uint16(400), "a", "V", "a\n\nb\nc  d", "p")
+	clean := func(s string, allowSpace bool) string {
+		s = strings.ToValidUTF8(s, "?")
+		var sb strings.Builder
+		for _, r := range s {
+			switch {
+			case r == '-' || r == '\t' || r == '\r' || r == '\v' || r == '\f' || r == 0x85 || r == 0xa0 || r == 0x2028 || r == 0x2029:
+				sb.WriteRune('x')
+			case r == ' ' || r == '\n':
+				if allowSpace {
+					sb.WriteRune(r)
+				}
+			case r < 0x20 || r == 0x7f || !utf8.ValidRune(r):
+				sb.WriteRune('x')
+			default:
+				if !allowSpace && (r == '=' || r == '[' || r == ']' || r == '|' || r == ':') {
+					r = 'x'
+				}
+				if u := []rune(strings.TrimSpace(string(r))); len(u) == 0 {
+					r = 'x' // other Unicode white space
+				}
+				sb.WriteRune(r)
+			}
+		}
+		return sb.String()
+	}
+	f.Fuzz(func(t *testing.T, width uint16, long, vn, desc, pos string) {
+		long, vn, pos = clean(long, false), clean(vn, false), clean(pos, false)
+		desc = clean(desc, true)
+		if long == "" {
+			long = "l"
+		}
+		if len(long) > 200 || len(desc) > 2000 || len(vn) > 100 || len(pos) > 100 {
+			return
+		}
+		d := &Decl{Root: Cmd{ID: "root", Name: "app"}}
+		d.Root.G.Groups = []Group{{Field: "G0", Desc: "Application Options", Options: []Opt{
+			{ID: "o1", Field: "A", Kind: KString, Short: "a", Long: "plain", Desc: "Mk1q plain description of the first option"},
+			{ID: "o2", Field: "B", Kind: KString, Long: long, ValueName: vn, Desc: "Mk2q " + desc},
+		}}}
+		if pos != "" {
+			d.Root.Pos = &Positional{Field: "Pos", Args: []PosArg{{Field: "P1", Kind: KString, Name: pos, Desc: "Mk3q " + desc}}}
+		}
+		c := &C17Case{D: d, Width: int(width%400) + 1}
+		S("C17").Eval()
+		if m := c17Oracle(c); m != "" {
+			RecordFail("C17", c, m)
+			t.Fatal(m)
+		}
+	})
+}
